@@ -415,5 +415,5 @@ func judgeM(s *MScript) (bool, *vt.Finding) {
 }
 
 func TestMerge(t *testing.T) {
-	vt.Run(t, cM, vt.N(30000, 1500000), genM, runM)
+	vt.Run(t, cM, vt.N(24000, 1500000), genM, runM)
 }
